@@ -8,7 +8,10 @@ pinned snapshot, everything else is byte-identical after ast.unparse):
   neg-if     if C: A else: B        ->  if not C: B else: A
   swap-and   X and Y / X or Y       ->  Y and X / Y or X   (only when both
              operands are side-effect free: names, attributes, constants,
-             comparisons and `not` of those)
+             comparisons and `not` of those, AND the value is only tested for
+             truth or is boolean-valued: `expressions or None` is not
+             `None or expressions` - the first version of this fuzzer swapped
+             those too and R-C06.9 rightly reported the result)
   noop       insert `assert True` as first statement of a function body
   six        per file: six.iteritems(d) -> d.items(), itervalues/iterkeys
              likewise
@@ -60,15 +63,52 @@ def _pure(e) -> bool:
 JUMPS = (ast.Return, ast.Raise, ast.Continue, ast.Break)
 
 
+def _boolean_valued(e) -> bool:
+    """The expression always evaluates to True/False."""
+    if isinstance(e, ast.Compare):
+        return True
+    if isinstance(e, ast.UnaryOp) and isinstance(e.op, ast.Not):
+        return True
+    if isinstance(e, ast.Constant) and isinstance(e.value, bool):
+        return True
+    if isinstance(e, ast.BoolOp):
+        return all(_boolean_valued(v) for v in e.values)
+    return False
+
+
+def _truthiness_contexts(tree):
+    """ids of the expressions whose value is only tested for truth (swapping
+    the operands of `x or y` elsewhere changes the VALUE: `[] or None` is
+    None, `None or []` is [])."""
+    ok = set()
+    for n in ast.walk(tree):
+        tests = []
+        if isinstance(n, (ast.If, ast.While, ast.IfExp, ast.Assert)):
+            tests.append(n.test)
+        if isinstance(n, ast.UnaryOp) and isinstance(n.op, ast.Not):
+            tests.append(n.operand)
+        if isinstance(n, ast.comprehension):
+            tests.extend(n.ifs)
+        work = list(tests)
+        while work:
+            t = work.pop()
+            ok.add(id(t))
+            if isinstance(t, ast.BoolOp):
+                work.extend(t.values)
+    return ok
+
+
 def sites(tree, kinds):
     """[(kind, index)] - index is the position in ast.walk order."""
     out = []
+    truth = _truthiness_contexts(tree) if 'swap-and' in kinds else set()
     for i, n in enumerate(ast.walk(tree)):
         if 'neg-if' in kinds and isinstance(n, ast.If) and n.orelse and not (
                 len(n.orelse) == 1 and isinstance(n.orelse[0], ast.If)):
             out.append(('neg-if', i))
         if 'swap-and' in kinds and isinstance(n, ast.BoolOp) and \
-                len(n.values) == 2 and all(_pure(v) for v in n.values):
+                len(n.values) == 2 and all(_pure(v) for v in n.values) and \
+                (id(n) in truth or _boolean_valued(n)):
             out.append(('swap-and', i))
         if 'noop' in kinds and isinstance(n, (ast.FunctionDef,
                                               ast.AsyncFunctionDef)):
